@@ -158,6 +158,21 @@ var WorldAtoms = []WorldAtom{
 		ss[1].Query = append(ss[1].Query, "c1(c: Color = RED): Color")
 		return ss
 	}, false},
+	{"shared-enum-extended", func(ss []*SvcSpec) []*SvcSpec {
+		ss[0].Extra = append(ss[0].Extra, "enum Shade { DARK MID }")
+		ss[1].Extra = append(ss[1].Extra, "enum Shade { MID LIGHT }")
+		ss[0].Query = append(ss[0].Query, "shade0(s: Shade): Shade")
+		ss[1].Query = append(ss[1].Query, "shade1(s: Shade = MID): Shade")
+		return ss
+	}, false},
+	{"entity-two-interfaces-one-service", func(ss []*SvcSpec) []*SvcSpec {
+		ss[0].addType("Tagged7", "interface", "tag: String")
+		ss[0].addType("N7", "Node & Tagged7", "tag: String")
+		ss[0].Query = append(ss[0].Query, "n7s: [N7!]!")
+		ss[1].Types["N1"] = append(ss[1].Types["N1"], "n7: N7")
+		ss[1].addType("N7", "Node", "seven: Int")
+		return ss
+	}, false},
 	{"third-service", func(ss []*SvcSpec) []*SvcSpec {
 		s2 := newSvc("http://s2")
 		s2.addType("N1", "Node", "extra: String", "n6: N6")
@@ -180,8 +195,8 @@ var WorldAtoms = []WorldAtom{
 		return ss
 	}, false},
 	{"same-root-name-query-mutation", func(ss []*SvcSpec) []*SvcSpec {
-		ss[0].Query = append(ss[0].Query, "thing(x: Int): Int")
-		ss[0].Mut = append(ss[0].Mut, "thing(x: Int): Int")
+		ss[0].Query = append(ss[0].Query, "both(x: Int): Int")
+		ss[0].Mut = append(ss[0].Mut, "both(x: Int): Int")
 		return ss
 	}, false},
 	{"subscription-roots", func(ss []*SvcSpec) []*SvcSpec {
@@ -199,6 +214,42 @@ var WorldAtoms = []WorldAtom{
 	{"upload-second-service", func(ss []*SvcSpec) []*SvcSpec {
 		ss[1].Extra = append(ss[1].Extra, "scalar Upload", "input UpIn { f: Upload fs: [Upload] s: String }")
 		ss[1].Mut = append(ss[1].Mut, "upload1(f: Upload): String", "plain1(s: String): String", "uploadIn1(in: UpIn): String")
+		return ss
+	}, false},
+	{"ts-wrappers", func(ss []*SvcSpec) []*SvcSpec {
+		ss[1].addType("Wr", "", "a: [Int]", "b: [Int!]", "c: [Int]!", "d: [Int!]!", "e: [[Int]]", "f: [[Int!]!]!", "g: [[[Int]]]", "h: [[Int]!]")
+		ss[1].Query = append(ss[1].Query, "wr: Wr", "wrArg(a: [Int!]!, b: [[Int]], c: InW): Int")
+		ss[1].Extra = append(ss[1].Extra, "input InW { a: [Int!]! b: [[Int!]] c: [InW] }")
+		return ss
+	}, false},
+	{"ts-defaults", func(ss []*SvcSpec) []*SvcSpec {
+		ss[0].Query = append(ss[0].Query, `defs(i: Int = 5, f: Float = 1.5, s: String = "a\"b", b: Boolean = true, e: E2 = B, n: Int = null, l: [Int] = [1, 2], o: InD = {x: 1}, id: ID = "x1"): String`)
+		ss[0].Extra = append(ss[0].Extra, "enum E2 { A B }", `input InD { x: Int = 3 y: String = "d" z: [String] = ["p", "q"] e: E2 = A b: Boolean = false f: Float = 2.5 }`)
+		return ss
+	}, false},
+	{"ts-descriptions", func(ss []*SvcSpec) []*SvcSpec {
+		ss[1].addType("Doc", "", `"field doc" a("arg doc" x: Int): Int`, "\"\"\"\nmulti\nline \\\"\\\"\\\" doc\n\"\"\" b: String")
+		ss[1].Query = append(ss[1].Query, "doc: Doc")
+		ss[1].Extra = append(ss[1].Extra, `"enum doc" enum DE { "value doc" X Y }`, `"input doc" input DI { "input field doc" a: Int }`, `"scalar doc" scalar DS`)
+		return ss
+	}, false},
+	{"ts-deprecated", func(ss []*SvcSpec) []*SvcSpec {
+		ss[0].addType("Dep", "", `old: String @deprecated(reason: "use new")`, "older: Int @deprecated", "new: String")
+		ss[0].Query = append(ss[0].Query, "dep: Dep", `oldRoot: Int @deprecated(reason: "gone")`)
+		ss[0].Extra = append(ss[0].Extra, `enum DepE { KEEP DROP @deprecated(reason: "bye") }`)
+		return ss
+	}, false},
+	{"ts-directive", func(ss []*SvcSpec) []*SvcSpec {
+		ss[1].Extra = append(ss[1].Extra, `directive @tag(name: String! = "x", n: Int, l: [String!]) on FIELD_DEFINITION | OBJECT | ENUM_VALUE`, `directive @flag on FIELD | QUERY`)
+		ss[1].addType("Tagged", "", `t: Int @tag(name: "q")`)
+		ss[1].Query = append(ss[1].Query, "tagged: Tagged")
+		return ss
+	}, false},
+	{"ts-interface-chain", func(ss []*SvcSpec) []*SvcSpec {
+		ss[1].addType("IBase", "interface", "a: Int")
+		ss[1].addType("IMid", "interface IBase", "a: Int", "b: Int")
+		ss[1].addType("ILeaf", "IMid & IBase", "a: Int", "b: Int", "c: Int")
+		ss[1].Query = append(ss[1].Query, "leafs: [IBase]")
 		return ss
 	}, false},
 	{"memberless-interface", func(ss []*SvcSpec) []*SvcSpec {
